@@ -81,7 +81,8 @@ CHECKS = {
         "evo_res over six result files: three plain ones, a name with glob metacharacters next to the sibling it would match, a NaN statistic, a different statistic set. " 
         "merge_results also with arrays in other representations (int64 / float32 first or later, one array object under two keys, read-only). " 
         "Statistics may be 0 or negative; arrays may be 2-D (L x 4, 4 x 4). " 
-        "Table files named .csv / .json / .tex / .txt / without extension.",
+        "Table files named .csv / .json / .tex / .txt / without extension. " 
+        "Lists in which one result object occurs more than once.",
         "Trusted: the predicate in mc/checks/c13.py, csv parsing. Not covered: "
         "lists longer than the bound, result files other than the three APE "
         "fixtures.",
@@ -103,7 +104,8 @@ CHECKS = {
         "Heap objects also hold their matrices as one (n,4,4) array (views sharing one buffer; transitions are replayed, not deep-copied); writers are also given a result with NaN / inf statistics and info values. " 
         "A derive operation that builds a second object from the very pose list of the first; copy/deepcopy/pickle are table entries observed without deep copies; trajectories carry metadata dicts. " 
         "Table entries for the ROS1 bag writer (quaternions unit only to 1e-7) and save_df_as_table in both orientations. " 
-        "Trajectories whose position / quaternion arrays are column-major.",
+        "Trajectories whose position / quaternion arrays are column-major. " 
+        "The non-trajectory arguments of transform (SE(3)/Sim(3) matrix), reduce_to_ids (index containers with negative indices), scale and downsample are watched.",
         "Trusted: snapshots through deepcopy; np.shares_memory for the "
         "aliasing graph. Not covered: heaps > 3 objects, depth beyond bound.",
         "DESIGN.md 4/C16"),
@@ -123,7 +125,8 @@ CHECKS = {
         "or complete JSON; no started process fails; finished processes see "
         "all default keys. " 
         "A fresh process is also started after every operation that completed (not only after a kill). " 
-        "A killed long edit followed by an edit of a process with the same pid; an outdated file that also carries dropped keys.",
+        "A killed long edit followed by an edit of a process with the same pid; an outdated file that also carries dropped keys. " 
+        "time.sleep is a scheduling point with a coarse virtual clock, so lock-file polling loops are explored to their timeout.",
         "Trusted: the VFS model (atomic primitives, inode semantics, process "
         "kill loses user-space buffers); CPython refcount-driven flush of "
         "un-closed files. Not covered: power loss / block-level reordering, "
@@ -144,7 +147,8 @@ CHECKS = {
         "maps the unaligned estimate onto the stored one for 6 option "
         "combinations. " 
         "Also with both trajectories displaced by (4620.37, 54280.91, 310.55) (coordinates large against the extent). " 
-        "One generator per path is repeated with evo's logger enabled for DEBUG (the state of every CLI run); the CLI part compares the recorded matrix with the reference model.",
+        "One generator per path is repeated with evo's logger enabled for DEBUG (the state of every CLI run); the CLI part compares the recorded matrix with the reference model. " 
+        "evo_traj alignment with --n_to_align over two files of different lengths in both orders (through C15's pipeline).",
         "Trusted: Horn oracle; tolerance 1e-9 x coordinate scale. Not covered: "
         "paths outside the step alphabet, > 6 poses.",
         "DESIGN.md 4/C04"),
@@ -161,7 +165,8 @@ CHECKS = {
         "rows; all pairs: metric value, symmetry, zero only for equal, "
         "bi-invariance; all triples: triangle inequality. " 
         "Near misses include shears of either sign (5e-4..0.1) in all six off-diagonal positions on either side. " 
-        "hat / vee against the definition; scales within 2e-6 and 1e-9 of 1.",
+        "hat / vee against the definition; scales within 2e-6 and 1e-9 of 1. " 
+        "Scales that are not round in any number of decimals (1e-4/3, 1e-2/7, 1e4/3).",
         "Trusted: numpy-only rotation oracle (mc/refmodel/geom.py). Not "
         "covered: rotations outside the alphabet; near-miss matrices between "
         "1e-9 and 1e-5 from the group (acceptance radius is not specified).",
@@ -181,7 +186,8 @@ CHECKS = {
         "run must reproduce the input bit for bit. " 
         "Also with file names that contain the reference's file name as suffix / prefix, --propagate_transform with --transform_left, and a motion-filter threshold spanning several poses of the zig-zag fixture. " 
         "Stale export files of an earlier run exist before every run; EuRoC inputs also without the title line. " 
-        "The two estimates in both orders with a down-sampling count between their sizes; epoch-sized timestamps x every use of the reference.",
+        "The two estimates in both orders with a down-sampling count between their sizes; epoch-sized timestamps x every use of the reference. " 
+        "Negative time offset; n_to_align 3 and 7 (between the sizes of the two files) in both file orders.",
         "Trusted: reference pipeline (mc/refmodel/pipeline.py), Horn oracle, "
         "evo's own project() for the orientation of non-planar projections. "
         "Not covered: bag input/output, other fixtures.",
@@ -204,7 +210,8 @@ CHECKS = {
         "Reset of every single key, adjacent pair and prefix-related pair from a file in which every key holds a user value; a set whose value tokens are all numeric must not raise. " 
         "generate cases include the same option given twice with different values. " 
         "A config holding null / false / 0 for an option that the command line sets; the effect of console_logging_format from -c on the run's output. " 
-        "evo_config generate through its own command line, with argument lists that contain option names it might take for its own.",
+        "evo_config generate through its own command line, with argument lists that contain option names it might take for its own. " 
+        "Every long spelling of every option; a generated key that no parser destination or setting reads while the option values differ is reported.",
         "Trusted: introspection of argparse actions; output comparison of "
         "result zips / exported files. Not covered: short options, triples of "
         "options.",
@@ -280,7 +287,8 @@ CHECKS = {
         "Also after project() calls rejected for their argument, with matrices held as one (n,4,4) array, and through ape()/rpe() with project_to_plane on equal-but-distinct trajectories. " 
         "evo_traj --project_to_plane together with association / alignment / merge is judged through C15's pipeline. " 
         "ape()/rpe() with project_to_plane on poses that already lie in the plane, also under non-default euler_angle_sequence settings; two objects given one metadata dict; metadata replaced / cleared after a projection. " 
-        "evo_traj projection also together with transformations that have an out-of-plane part.",
+        "evo_traj projection also together with transformations that have an out-of-plane part. " 
+        "A reference that was projected by an earlier ape()/rpe() call is refused by the next one.",
         "Trusted: numpy rotation oracle. Not covered: rotations outside the "
         "alphabets.",
         "DESIGN.md 4/C14"),
@@ -302,7 +310,8 @@ CHECKS = {
         "the reference pipeline incl. predicted refusals. " 
         "Plus geometry variants of the estimate file (mirrored copy, both trajectories displaced by 5e4 m, the reference file given twice) x relation x alignment x n_to_align; an exception escaping from evo is a violation. " 
         "A burst variant (two estimate poses contending for one reference pose): the contested association is adopted from evo's primitive after it passed C05's predicate. " 
-        "The estimate file also without a line end after its last row and with CRLF line ends.",
+        "The estimate file also without a line end after its last row and with CRLF line ends. " 
+        "One-sided time ranges (--t_start or --t_end alone) and a negative offset.",
         "Trusted: reference pipeline and definitions (mc/refmodel, "
         "mc/checks/ape_rpe_common.py), Horn oracle, evo's project() for the "
         "orientation of non-planar projections, one 8-pose fixture.",
@@ -321,7 +330,8 @@ CHECKS = {
         "reference pipeline. " 
         "Plus geometry variants of the estimate file (mirrored copy, displaced by 5e4 m, the reference given twice) x relation x delta x pairing x alignment. " 
         "Quarter-turn deltas (90 deg, pi/2) in all-pairs mode over references that keep turning past 180/360 deg; in the evo_rpe lattice the selected pairs are judged by C10's predicate oracle. " 
-        "Chains of 257 / 300 / 514 poses (thorough: to 1300) x relations x 3 deltas.",
+        "Chains of 257 / 300 / 514 poses (thorough: to 1300) x relations x 3 deltas. " 
+        "One-sided time ranges and a negative offset in the evo_rpe lattice.",
         "Trusted: as C01; the pair selection itself is evo's "
         "id_pairs_from_delta (decided by C10) applied to the trajectory the "
         "property names.",
@@ -360,7 +370,8 @@ CHECKS = {
         "transform files in 3 forms incl. 8 invalid classes. " 
         "Text transforms also in other whitespace layouts (padded columns, tabs, indentation and trailing blanks, CRLF without final newline, comment line). " 
         "Written files cover the hard rotation alphabet (exact half / quarter turns, angles within 1e-12 of 0 and pi). " 
-        "Files whose last row has no line end; rows stamped earlier than their predecessors.",
+        "Files whose last row has no line end; rows stamped earlier than their predecessors. " 
+        "Invalid rotation blocks also at overall scales 1e-4 and 1e-2.",
         "Trusted: mc/refmodel/files.py, Python float(). EuRoC rows are "
         "malformed if < 8 columns or inconsistent with the other rows.",
         "DESIGN.md 4/C07"),
@@ -381,7 +392,8 @@ CHECKS = {
         "Bystander files with neighbouring names exist in every initial state and may never change; extension-less plot target also with savefig.format = pdf. " 
         "Writers are also called with the flag by position / left at its default; one path given to two output options of evo_ape/evo_rpe is judged by an event monitor (every write onto a then-existing path needs a question answered y since the last write to it). " 
         "Answers include whitespace-padded y and an unanswered question (EOF); a plot target that ends with a dot. " 
-        "Initial state with an existing file much longer than any output (no remains of it after a replacement); two inputs with the same file stem.",
+        "Initial state with an existing file much longer than any output (no remains of it after a replacement); two inputs with the same file stem. " 
+        "A collection loaded from a file and serialized back onto that file.",
         "Trusted: input() substitution, directory snapshots. Excluded: "
         "--logfile (append), bag exports (time-stamped names).",
         "DESIGN.md 4/C17"),
@@ -397,7 +409,8 @@ CHECKS = {
         "(called twice on the same objects) and error_array against shifted "
         "timestamps / index; plot.trajectories() for dict/list/single. " 
         "add_start_end_markers with the caller's own symbols (also one symbol for both ends); plot.trajectories() also for tuple, generator, iterator and dict view. " 
-        "The figure handed to prepare_axis is not pyplot's current figure.",
+        "The figure handed to prepare_axis is not pyplot's current figure. " 
+        "Time-reversed stamps and a backwards jump in the map plots.",
         "Trusted: matplotlib artist accessors (incl. private 3-D fields). "
         "Agg backend only.",
         "DESIGN.md 4/C20"),
